@@ -431,14 +431,55 @@ def torch_trace(n=4, rank=0, seed=0):
 
 def scenario_files(scen):
     from gen import scenario
-    if "testdata" in scen or "torch" in scen:
+    if "testdata" in scen or "torch" in scen or "twin" in scen:
         return None
     return scenario.scenario_events(R=scen["R"], groups=scen["groups"], kernels=scen["kernels"], seed=scen["seed"],
                                     xseg_step=12 if scen["R"] > 5 else 1)
 
 
+TWIN_TABLE = """-------------------------------------------------------------------------------------------
+Name                                                                            Ideal Cy.
+-------------------------------------------------------------------------------------------
+%s
+-------------------------------------------------------------------------------------------
+Total                                                                           %d
+-------------------------------------------------------------------------------------------
+"""
+
+
+def twin_inputs(d, scen):
+    """a compiler log with TWO ideal-cycle tables (PREFILL / DECODING) that list the same kernels with the same
+    total in another order and with other per-kernel cycles, and a job that ran only the first kernel: both tables
+    are exactly equally similar to the job, so which one is used must be decided by the log, not by a hash"""
+    import random
+    rnd = random.Random(scen.get("seed", 0))
+    names = rnd.sample(["alpha", "beta", "gamma", "delta", "omega"], scen["twin"])
+    cyc = [1000 * (k + 1) for k in range(len(names))]
+    rows1 = [(f"{n}-opCat{'Bmm' if k % 2 else 'Conv'}_fp16", c) for k, (n, c) in enumerate(zip(names, cyc))]
+    rows2 = [(f"{n}-opCat{'Bmm' if k % 2 else 'Conv'}_fp16", c)
+             for k, (n, c) in enumerate(zip(reversed(names), cyc))]
+    def tab(rows):
+        return "====== Perf Summary ======\n~~~~ Ideal/Total Cycles ~~~~\n" + \
+            TWIN_TABLE % ("\n".join(f"{n.ljust(80)}{c}" for n, c in rows), sum(c for _, c in rows)) + "====== Perf Summary End ======\n"
+    log = "[DeepRT] ===== Perf BEGIN =====\n   PREFILL\n" + tab(rows1) + "   DECODING\n" + tab(rows2) + "[DeepRT] ===== Perf END =====\n"
+    soc, cyc0 = 560.0, 0x10000
+    ts3 = cyc0 + 0x100
+    ts4 = ts3 + int(10.0 * soc)
+    attr = {"Power": "0x438d671c", "TS1": hex(cyc0), "TS2": hex(cyc0), "TS3": hex(ts3), "TS4": hex(ts4), "TS5": hex(ts4 + 6)}
+    nm = f"{names[0]} Cmpt Exec"
+    evs = [{"attr": dict(attr), "name": nm, "ph": "B", "pid": 0, "tid": 77, "ts": 1000.0},
+           {"attr": dict(attr), "name": nm, "ph": "E", "pid": 0, "tid": 77, "ts": 1010.0}]
+    with open(os.path.join(d, "flex_job.json"), "w") as fh:
+        json.dump(evs, fh)
+    with open(os.path.join(d, "comp_log.txt"), "w") as fh:
+        fh.write(log)
+    return [os.path.join(d, "flex_job.json")], ["-c", os.path.join(d, "comp_log.txt"), "--freq", "560:800"]
+
+
 def write_inputs(d, scen):
     """-> (list of input paths in -i order, extra argv)"""
+    if "twin" in scen:
+        return twin_inputs(d, scen)
     if "testdata" in scen:
         td = REPO / "tests" / "test_data"
         shutil.copy(td / "sample_flex_3062_job_4.json", os.path.join(d, "flex_job.json"))
@@ -803,6 +844,10 @@ def gen_e2e_cases(ctx: Ctx):
                "opts": [], "seed": rng.randint(0, 10 ** 6),
                "variants": ["seed:1", "seed:2", "seed:3", f"seed:{rng.randint(4, 10 ** 6)}", f"seed:{rng.randint(4, 10 ** 6) + 10 ** 6}", "I:2",
                             "inproc", "after:A", opt_variant(["--event_limit", '{"count": 3}']), "inproc-again"]}
+    # two equally similar ideal-cycle tables: the tie must not be broken by anything salted
+    for k in range(ctx.n(2, 6)):
+        yield {"kind": "e2e", "scen": {"twin": 2 + k % 3, "seed": rng.randint(0, 10 ** 6)}, "opts": [], "seed": rng.randint(0, 10 ** 6),
+               "variants": ["seed:1", "seed:2", "seed:3", "seed:4", "seed:7", f"seed:{rng.randint(8, 10 ** 6)}", "inproc", "after:A"]}
     for k in range(ctx.n(1, 4)):
         yield {"kind": "dirorder", "scen": {"R": rng.choice([3, 4]), "groups": 1, "kernels": rng.randint(1, 2), "seed": rng.randint(0, 10 ** 6)},
                "opts": rng.choice([[], ["--flow"]])}
